@@ -421,7 +421,7 @@ def run_case(ops) -> tuple[list, list]:
 
 
 def corr(ck: Ck, escalate: bool = False) -> None:
-    n = 6000 if escalate else ck.budget(240, 6000)
+    n = 2500 if escalate else ck.budget(240, 2500)
     cases = []
     seqs: list = list(CORPUS)
     if ck.thorough or ck.tie_broken or escalate:
@@ -446,7 +446,10 @@ def corr(ck: Ck, escalate: bool = False) -> None:
     bad: list[tuple[int, Any]] = []
     bad_q: list[tuple[int, Any]] = []
     B = 120
-    for lo in range(0, len(cases), B):
+    from concurrent.futures import ThreadPoolExecutor
+    from harness.common import parse_coq_nested
+
+    def batch(lo: int):
         part = cases[lo:lo + B]
         tab: dict[str, str] = {}
         lits = []
@@ -460,12 +463,15 @@ def corr(ck: Ck, escalate: bool = False) -> None:
         pre = PRE + ''.join(f'Definition {name} : str := {_coq_str(s)}.\n' for s, name in tab.items())
         exprs = ['[' + '; '.join(f'first_bad 0 {l} w2' for l in lits) + ']',
                  '[' + '; '.join(qlits) + ']']
-        vals = ck.coq_eval(IMPORTS, exprs, name='index', preamble=pre, timeout=900)
+        return lo, ck.coq_eval(IMPORTS, exprs, name=f'index{lo}', preamble=pre, timeout=900)
+
+    with ThreadPoolExecutor(max_workers=6) as ex:
+        results = list(ex.map(batch, range(0, len(cases), B)))
+    for lo, vals in results:
         if vals is None:
             ck.obligation('correspondence:index_ops', False, 'model could not be evaluated')
             ck.tie_broken.append('correspondence index operations: model evaluation failed')
             return
-        from harness.common import parse_coq_nested
         res = parse_coq_nested(vals[0])
         for i, r in enumerate(res):
             if r is not None:
